@@ -78,6 +78,11 @@ type c01Sim struct {
 	trueAccuser map[int]map[group.MemberIndex]bool
 	// corrupt sender -> members its first broadcast shares message has no entry for
 	missingShareFor map[group.MemberIndex][]group.MemberIndex
+	// scripted two-member plan (0 = none): planC gives planA a wrong share in
+	// phase 3; planA keeps quiet / mixes entries in phase 4 and raises the (true)
+	// accusation together with bogus entries in phase 4 or only in phase 8
+	plan         int
+	planA, planC group.MemberIndex
 }
 
 func (s *c01Sim) m(idx group.MemberIndex) *c01Member { return s.members[int(idx)-1] }
@@ -149,6 +154,16 @@ func (s *c01Sim) mutate(c *c01Member, e *verifadapt.Envelope, phase int) []*veri
 	}
 	if s.mode == "C12" {
 		return s.mutateC12(c, e)
+	}
+	if s.plan != 0 {
+		if planned, ok := s.mutatePlanned(c, e); ok {
+			return planned
+		}
+		if c.idx == s.planA || c.idx == s.planC {
+			// the two plan members otherwise follow the protocol, so that the
+			// scripted multi-step history is not destroyed by unrelated deviations
+			return []*verifadapt.Envelope{e}
+		}
 	}
 	out := []*verifadapt.Envelope{}
 	// optional impersonation / foreign session copy sent BEFORE the genuine message
@@ -505,6 +520,73 @@ func (s *c01Sim) damaging(c *c01Member, m net.TaggedMarshaler, idx group.MemberI
 	}
 }
 
+// mutatePlanned implements the scripted two-member plans; ok=false means the
+// message is not part of the plan and takes the ordinary random path.
+func (s *c01Sim) mutatePlanned(c *c01Member, e *verifadapt.Envelope) ([]*verifadapt.Envelope, bool) {
+	tp, r := s.tp, s.r
+	bogus := func(keys map[group.MemberIndex]*ephemeral.PrivateKey, tag string) {
+		// one or two extra entries of other kinds next to the true accusation
+		n := 1 + tp.Choose(tag+"-extra", 2)
+		for i := 0; i < n; i++ {
+			v := s.pickMember(tag+"-extra-victim", s.honest)
+			if tp.Chance(tag+"-extra-wrongkey", 2, 3) {
+				keys[v] = ephemeral.UnmarshalPrivateKey(s.randScalar(tag + "-extra-key").Bytes())
+			} else if kp, ok := s.m(s.planA).ek.ephemeralKeyPairs[v]; ok {
+				keys[v] = kp.PrivateKey // false accusation with the real key
+			}
+		}
+	}
+	switch m := e.Sent.(type) {
+	case *PeerSharesMessage:
+		if c.idx != s.planC {
+			return nil, false
+		}
+		cp := newPeerSharesMessage(m.senderID, m.sessionID)
+		for k, v := range m.shares {
+			cp.shares[k] = v
+		}
+		if key := s.symKey(c.idx, s.planA); key != nil {
+			if err := cp.addShares(s.planA, s.randScalar("plan-wrong-share"), s.randScalar("plan-wrong-share-t"), key); err == nil {
+				r.Fault("byz-plan-wrong-share-for-accomplice")
+			}
+		}
+		if f := s.forge(c, cp); f != nil {
+			return []*verifadapt.Envelope{f}, true
+		}
+	case *SecretSharesAccusationsMessage:
+		if c.idx != s.planA {
+			return nil, false
+		}
+		keys := map[group.MemberIndex]*ephemeral.PrivateKey{}
+		if s.plan == 2 { // raise it now, mixed with bogus entries
+			if kp, ok := c.ek.ephemeralKeyPairs[s.planC]; ok {
+				keys[s.planC] = kp.PrivateKey
+			}
+			bogus(keys, "plan-p4")
+			r.Fault("byz-plan-mixed-accusations-p4")
+		} else {
+			r.Fault("byz-plan-accusation-withheld-p4")
+		}
+		if f := s.forge(c, &SecretSharesAccusationsMessage{senderID: m.senderID, sessionID: m.sessionID, accusedMembersKeys: keys}); f != nil {
+			return []*verifadapt.Envelope{f}, true
+		}
+	case *PointsAccusationsMessage:
+		if c.idx != s.planA || s.plan != 1 {
+			return nil, false
+		}
+		keys := map[group.MemberIndex]*ephemeral.PrivateKey{}
+		if kp, ok := c.ek.ephemeralKeyPairs[s.planC]; ok {
+			keys[s.planC] = kp.PrivateKey
+		}
+		bogus(keys, "plan-p8")
+		r.Fault("byz-plan-mixed-accusations-p8")
+		if f := s.forge(c, &PointsAccusationsMessage{senderID: m.senderID, sessionID: m.sessionID, accusedMembersKeys: keys}); f != nil {
+			return []*verifadapt.Envelope{f}, true
+		}
+	}
+	return nil, false
+}
+
 // noteAccusations records who accused whom in phases 4 and 8 (diagnosis only).
 func (s *c01Sim) noteAccusations(mb *c01Member, genuine *verifadapt.Envelope, wire []*verifadapt.Envelope) {
 	keysOf := func(m net.TaggedMarshaler) (int, group.MemberIndex, map[group.MemberIndex]*ephemeral.PrivateKey) {
@@ -784,6 +866,16 @@ func c01Run(t *testing.T, r *verifsim.Run, mode string) {
 		}
 	}
 	mv := group.NewMembershipValidator(logger, addrs, signing)
+	if mode != "C12" && mode != "C14" && len(s.corrupt) >= 2 {
+		s.plan = tp.Weighted("byz-plan", 6, 1, 1)
+		if s.plan != 0 {
+			pp := tp.Perm("byz-plan-who", len(s.corrupt))
+			s.planA, s.planC = s.corrupt[pp[0]], s.corrupt[pp[1]]
+			s.m(s.planA).silentFrom, s.m(s.planC).silentFrom = 0, 0
+			r.Fault(fmt.Sprintf("byz-plan-%d", s.plan))
+			r.Logf("plan %d: accomplice A=%d, wrong-share sender C=%d", s.plan, s.planA, s.planC)
+		}
+	}
 	seed := big.NewInt(int64(1000 + tp.Choose("seed", 1000)))
 
 	for _, mb := range s.members {
